@@ -267,3 +267,38 @@ def _list_method(ex, st, lst, name, args, kwargs, node):
 
 
 lib.list_method = _list_method
+
+
+# --------------------------------------------------------------------------------------------
+# EstimationValidation (a NamedTuple, immutable) as a VALUE: EV(estimation, validation) with its two
+# projections.  The engine allocates ONE heap object for a constructor call inside a comprehension of
+# symbolic length (the element expression is evaluated once under a bound position), which cannot
+# describe n distinct tuples; a value constructor can.
+def _ev_fun(name):
+    return uf('c13.EV_' + name, Val, Val)
+
+
+@lib.hook('construct_special')
+def _ev_construct(ex, st, ci, args, kwargs, node):
+    if not mine(ex) or ci.name != 'EstimationValidation':
+        return None
+    from ..state import Raised
+    names = ['estimation', 'validation']
+    vals = dict(zip(names, args))
+    vals.update(kwargs)
+    if set(vals) != set(names) or len(args) > 2:
+        raise Raised('TypeError')
+    e, v = vals['estimation'], vals['validation']
+    ex.ctx.note('LIBSPEC NamedTuple EstimationValidation: immutable value EV(estimation, validation) with projections')
+    t = uf('c13.EV', Val, Val, Val)(ex.box(st, e), ex.box(st, v))
+    st.assume(z3.And(Val.is_ref(t), _ev_fun('estimation')(t) == ex.box(st, e), _ev_fun('validation')(t) == ex.box(st, v)))
+    return V(t, T('ref', cls=ex.repo.class_key(ci)))
+
+
+@lib.hook('ref_attr')
+def _ev_attr(ex, st, obj, name, node):
+    if not mine(ex) or obj.kind != 'ref' or not obj.ty.cls or obj.ty.cls.split('.')[-1] != 'EstimationValidation':
+        return None
+    if name in ('estimation', 'validation'):
+        return V(_ev_fun(name)(obj.t), TPd('DataFrame'))
+    return None
